@@ -6,6 +6,7 @@ import (
 	"encoding/hex"
 	"fmt"
 	"math"
+	"math/big"
 	"os"
 	"path/filepath"
 	"reflect"
@@ -17,8 +18,11 @@ import (
 
 	sdkmath "cosmossdk.io/math"
 	sdk "github.com/cosmos/cosmos-sdk/types"
+	"github.com/ethereum/go-ethereum/accounts/abi"
 	"github.com/ethereum/go-ethereum/common"
+	"github.com/ethereum/go-ethereum/crypto"
 	"github.com/palomachain/paloma/v2/x/consensus/keeper/consensus"
+	"github.com/palomachain/paloma/v2/x/consensus/keeper/filters"
 	consensustypes "github.com/palomachain/paloma/v2/x/consensus/types"
 	evmkeeper "github.com/palomachain/paloma/v2/x/evm/keeper"
 	evmtypes "github.com/palomachain/paloma/v2/x/evm/types"
@@ -904,6 +908,116 @@ func TestC05(t *testing.T) {
 	}
 
 	c05QueueIds(t, r)
+	// appended AFTER everything else so that the random stream of the cases above is unchanged
+	c05RelayFilter(r)
+	c05UpForgery(r)
+}
+
+// ---------- relay filter: what is offered to relayers carries an elected estimate ----------
+
+// c05RelayFilter drives filters.HasGasEstimate (a conjunct of GetMessagesForRelaying) against the
+// model's hasGasEstimate.  It is what discharges the "estimate != 0" proviso of the delivered-
+// equals-signed theorems: estimate 0 is SIGNED as 300000 but DELIVERED as 0.
+func c05RelayFilter(r *Rec) {
+	fixed := []struct {
+		req bool
+		est uint64
+	}{{true, 0}, {true, 1}, {false, 0}, {false, 1}, {true, 300_000}, {true, math.MaxUint64}}
+	for i := 0; i < 40; i++ {
+		req, est := r.Rng.Intn(2) == 0, c05Est(r)
+		if i < len(fixed) {
+			req, est = fixed[i].req, fixed[i].est
+		}
+		q := &consensustypes.QueuedSignedMessage{FlagMask: consensustypes.BuildFlagMask(req), GasEstimate: est}
+		got := filters.HasGasEstimate(q)
+		ri := 0
+		if req {
+			ri = 1
+		}
+		line := fmt.Sprintf("hasest %d %d", ri, est)
+		r.Op(line, strconv.FormatBool(got))
+		r.Stat(fmt.Sprintf("hasest:req=%v,zero=%v", req, est == 0))
+		r.Case(line, true)
+		if req && est == 0 && got {
+			r.Hit("offered_estimate_elected", "a message that requires gas estimation is offered to relayers without an elected estimate (signed 300000, delivered 0)", line)
+		}
+	}
+}
+
+// ---------- UploadSmartContract is not domain separated (finding, Props/C05.lean) ----------
+
+func c05Selector(sig string) []byte { return crypto.Keccak256([]byte(sig))[:4] }
+
+// c05UpdateValsetPreimage rebuilds, with go-ethereum only, the byte string
+// Message_UpdateValset.keccak256 hashes (validated against the real digest by the caller).
+func c05UpdateValsetPreimage(m *c05Msg) ([]byte, error) {
+	ty := func(s string) abi.Type {
+		t, err := abi.NewType(s, "", nil)
+		if err != nil {
+			panic(err)
+		}
+		return t
+	}
+	vals := make([]common.Address, len(m.validators))
+	for i, v := range m.validators {
+		vals[i] = common.HexToAddress(v)
+	}
+	pows := make([]*big.Int, len(m.powers))
+	for i, p := range m.powers {
+		pows[i] = big.NewInt(int64(p))
+	}
+	cp, err := abi.Arguments{{Type: ty("address[]")}, {Type: ty("uint256[]")}, {Type: ty("uint256")}, {Type: ty("bytes32")}}.Pack(
+		vals, pows, big.NewInt(int64(m.valsetID)), c05B32(m.turnstone))
+	if err != nil {
+		return nil, err
+	}
+	var h32 [32]byte
+	copy(h32[:], crypto.Keccak256(append(c05Selector("checkpoint(address[],uint256[],uint256,bytes32)"), cp...)))
+	est := m.est
+	if est == 0 {
+		est = 300_000
+	}
+	b, err := abi.Arguments{{Type: ty("bytes32")}, {Type: ty("address")}, {Type: ty("uint256")}}.Pack(
+		h32, common.HexToAddress(m.relayer), new(big.Int).SetUint64(est))
+	if err != nil {
+		return nil, err
+	}
+	return append(c05Selector("update_valset(bytes32,address,uint256)"), b...), nil
+}
+
+// c05UpForgery replays the witness of Props/C05.lean `cross_action_clause_false_for_up` on the
+// real implementation: for an UpdateValset message u the UploadSmartContract message whose
+// "bytecode" is the first 92 bytes of u's update_valset pre-image (selector, checkpoint, relayer,
+// 24 zero bytes) and whose queue id is u's gas estimate has the SAME signing bytes.  Recorded as
+// an observation, reported as a finding; not a monitor hit (the forged bytecode needs a
+// governance proposal).
+func c05UpForgery(r *Rec) {
+	for i := 0; i < 6; i++ {
+		u := c05GenMsg(r, "uv")
+		if i%2 == 0 {
+			u.est = 1 + uint64(r.Rng.Int63()) // an elected estimate
+		}
+		a := u.sign()
+		r.Op(u.line(), a)
+		pre, err := c05UpdateValsetPreimage(u)
+		if err != nil || len(pre) != 100 || hex.EncodeToString(crypto.Keccak256(pre)) != a {
+			r.Stat("observed:up-forgery-preimage-not-rebuilt")
+			continue
+		}
+		est := u.est
+		if est == 0 {
+			est = 300_000
+		}
+		f := &c05Msg{kind: "up", id: est, payload: append([]byte(nil), pre[:92]...)}
+		b := f.sign()
+		r.Op(f.line(), b)
+		r.Case("forgery/"+f.line(), true)
+		if a == b {
+			r.Stat("observed:up-preimage-equals-update_valset-preimage")
+		} else {
+			r.Stat("observed:up-forgery-not-reproduced")
+		}
+	}
 }
 
 func c05Class(s string) string {
